@@ -37,7 +37,8 @@ type Elem struct {
 	Inside bool // nodes: inside the KeepBounds box
 	Refs   []Ref
 	Tagged bool
-	Edge   int `json:",omitempty"` // nodes: exactly on the border of the box: 1 top, 2 right, 3 corner, 4 bottom, 5 left
+	Edge   int  `json:",omitempty"` // nodes: exactly on the border of the box: 1 top, 2 right, 3 corner, 4 bottom, 5 left
+	NoTag  bool `json:",omitempty"` // the element carries no tag at all
 }
 
 // edgeCoord is the (lat, lon) of a node on the border of the [-1,1]^2 box.
@@ -73,6 +74,9 @@ func (d Doc) XML() string {
 	tag := func(e Elem) string {
 		if e.Tagged {
 			return `<tag k="a" v="b"/>`
+		}
+		if e.NoTag {
+			return ""
 		}
 		return `<tag k="c" v="d"/>` // every other element carries a tag no extraction scenario selects
 	}
@@ -126,6 +130,9 @@ func (d Doc) String() string {
 		if e.Kind == 'n' && e.Edge > 0 {
 			x += fmt.Sprintf("@edge%d", e.Edge)
 		}
+		if e.NoTag {
+			x += "~"
+		}
 		s = append(s, x)
 	}
 	return strings.Join(s, " ")
@@ -178,7 +185,7 @@ func lfp(d Doc, keep int) map[string]bool {
 		case keepTags:
 			return e.Tagged
 		case keepOtherTags:
-			return !e.Tagged
+			return !e.Tagged && !e.NoTag
 		}
 		if e.Kind == 'n' {
 			return e.Inside || e.Edge > 0 // the box is closed: a node on its border is selected
@@ -499,6 +506,12 @@ func scenarios(tier string) []Scenario {
 		Doc{n(1, true), w(1, 1, 9), w(2, 9, 3), n(3, false), r(1, Ref{'w', 2})},
 		Doc{n(1, true), r(1, Ref{'n', 1}, Ref{'n', 9}), w(1, 1, 8)},
 		Doc{n(1, true), r(1, Ref{'n', 1}, Ref{'w', 9}), r(2, Ref{'r', 9}, Ref{'n', 1})})
+	// elements without any tag (bare way vertices, free-standing untagged nodes)
+	bare := func(e Elem) Elem { e.NoTag = true; return e }
+	filterDocs = append(filterDocs,
+		Doc{bare(n(1, true)), n(2, false)},
+		Doc{bare(n(1, true)), bare(n(2, false)), w(1, 2, 3), bare(n(3, false))},
+		Doc{bare(n(1, false)), bare(w(1, 1, 2)), bare(n(2, false)), bare(r(1, Ref{'w', 1}))})
 	for _, d := range filterDocs {
 		if len(d) < 2 || (d.dangling() && len(d) <= 2) {
 			continue
